@@ -111,6 +111,26 @@ pub fn run_c16<C: NatCtx>(v: &mut Env<C>) {
         let n2 = v.rnd_exp();
         crate::p_c05::bound_case(v, &x, &m, &nonce, &n2, &label);
     }
+    // label lengths 0..=140 (quick: the padding-boundary neighbourhoods): every residue of the transcript length
+    // modulo the SHA-512 block size; challenge = hash_to_exp(documented transcript bytes)
+    if (v.small && v.p == big(23)) || v.p.bits() == 130 {
+        let lens: Vec<usize> = if quick { vec![0, 1, 2, 3, 15, 16, 17, 30, 31, 32, 33, 47, 48, 63, 64, 65, 100, 127, 128, 129] } else { (0..=140).collect() };
+        let (x, tt) = (v.rnd_exp(), v.rnd_member());
+        let (ge, ye, te) = (v.e(&g), v.e(&g.modpow(&x, &p)), v.e(&tt));
+        let y = g.modpow(&x, &p);
+        for len in lens {
+            let label = v.h.rng.bytes(len);
+            let (g2, y2, t2, l2) = (ge.clone(), ye.clone(), te.clone(), label.clone());
+            let zk = Zkp::new(&ctx);
+            let out = v.case("sch_chal", vec![n(&g), n(&y), n(&tt), Val::None, b(&label)], || match zv::schnorr_challenge(&zk, &g2, &y2, &t2, None, &l2) {
+                Ok(x) => Out::Ok(Val::Nat(C::x_val(&x))),
+                Err(_) => Out::Err,
+            });
+            let bytes = zv::schnorr_challenge_bytes::<C>(&ge, &ye, &te, None, &label).unwrap();
+            let want = C::x_val(&ctx.hash_to_exp(&bytes));
+            v.h.check(out == Out::Ok(n(&want)), || format!("Schnorr challenge for a {}-byte label is not the hash of its transcript on {}", len, tok));
+        }
+    }
     // shuffle challenges
     let sizes: Vec<usize> = if v.small { if quick { vec![1, 3] } else { vec![1, 2, 5, 20] } } else if quick { vec![2] } else { vec![1, 4, 10] };
     let sk = v.rnd_exp();
@@ -298,6 +318,17 @@ pub fn run_c17<C: NatCtx>(v: &mut Env<C>) {
                 }
                 longest = gs;
             }
+        }
+    }
+    // seed lengths across the SHA-512 padding boundaries (seed || "ggen" || 16 bytes per attempt)
+    if (v.small && v.p == big(23)) || v.p.bits() == 130 {
+        let lens: Vec<usize> = if quick { vec![2, 3, 43, 44, 90, 91, 92, 107, 108, 109, 219, 220, 221] } else { (0..=240).collect() };
+        for len in lens {
+            let seed = v.h.rng.bytes(len);
+            let (c2, sd) = (ctx.clone(), seed.clone());
+            let out = v.case("gens", vec![nu(3), b(&seed)], || Out::Ok(l(c2.generators(3, &sd).iter().map(|e| Val::Nat(C::e_val(e))).collect())));
+            let want: Vec<Val> = (1..=3u64).map(|i| n(&ref_generator(&seed, i, C::kind() == 'B', &p, &q))).collect();
+            v.h.check(out == Out::Ok(l(want)), || format!("generators(3) for a {}-byte seed differ from the documented derivation on {}", len, tok));
         }
     }
     // different seeds give different lists (large groups)
